@@ -447,7 +447,17 @@ func (env *Env) run(c *Case) *Result {
 	}
 	var kept []*gtree.WalkerNode // nodes handed to the caller, read again after the walk has ended
 	call := func() (err error) {
-		opts := c.Opts.Options(ctx, targetOpt)
+		var opts []gtree.Option
+		if c.Opts.EarlyOpts {
+			// the caller built the option values earlier, while its working directory was another one
+			if cwd, err := os.Getwd(); err == nil && os.Chdir("/") == nil {
+				opts = c.Opts.Options(ctx, targetOpt)
+				os.Chdir(cwd)
+			}
+		}
+		if opts == nil {
+			opts = c.Opts.Options(ctx, targetOpt)
+		}
 		var node *gtree.Node
 		var nodes []*gtree.Node
 		if c.Entry != "md" {
